@@ -137,14 +137,20 @@ def run(root, pkg, harnesses, jobs=4, timeout_s=1500, extra=()):
     env = dict(os.environ)
     env['CARGO_NET_OFFLINE'] = 'true'
     t0 = time.time()
-    try:
-        p = subprocess.run(cmd, cwd=root, env=env, stdout=subprocess.PIPE, stderr=subprocess.STDOUT, text=True,
-                           timeout=timeout_s)
-        out, rc, to = p.stdout, p.returncode, False
-    except subprocess.TimeoutExpired as e:
-        out = (e.stdout or b'').decode() if isinstance(e.stdout, bytes) else (e.stdout or '')
-        rc, to = None, True
-        subprocess.run(['pkill', '-f', root], check=False)
+    logp = os.path.join(root, 'kani-%s.log' % pkg)
+    to = False
+    with open(logp, 'w') as lf:
+        p = subprocess.Popen(cmd, cwd=root, env=env, stdout=lf, stderr=subprocess.STDOUT, text=True, start_new_session=True)
+        try:
+            rc = p.wait(timeout=timeout_s)
+        except subprocess.TimeoutExpired:
+            to, rc = True, None
+            try:
+                os.killpg(p.pid, 9)
+            except OSError:
+                pass
+            p.wait()
+    out = open(logp, errors='replace').read()
     wall = time.time() - t0
     res = parse_output(out, harnesses)
     compile_error = None
